@@ -138,6 +138,8 @@ func runC07(c *Ctx) {
 	c.Rule("C07-R4", "locked / AlwaysEnabled dominate the rule-comment test; locked flows from Rule.Locked", 6)
 	c.Rule("C07-R5", "comment matches compared by equality with the documented spellings", 4)
 	c.Rule("C07-R6", "file-level disables flow through Entry.DisabledChecks into isEnabled", 4)
+	defer c07CommentDecisionFirst(c)
+	defer c07NodeComments(c)
 
 	writer := c07WriterTable(c)
 	for _, k := range sortedKeys(writer) {
@@ -536,7 +538,7 @@ func runC07(c *Ctx) {
 							if objOf(info, el) == nameObj && nameObj != nil {
 								hasName = true
 							}
-							if call, ok := el.(*ast.CallExpr); ok && exprStr(call.Fun) == "check.String" {
+							if call, ok := el.(*ast.CallExpr); ok && roleStr(info, call.Fun) == "«RuleChecker».String" {
 								hasString = true
 							}
 						}
@@ -813,5 +815,118 @@ func c07Snooze(c *Ctx) {
 	}
 	if n == 0 {
 		c.Bad("C07-R3", "no snooze consumers found", token.NoPos, "expected consumers of Snooze.Match")
+	}
+}
+
+// c07CommentDecisionFirst: in parsedRule.isEnabled the decision taken from rule
+// and file comments (isEnabled(…, e.DisabledChecks, …)) lies on every path to a
+// `return true`: nothing in the configuration, not even rule{enable=[…]}, makes
+// a check run that a (not locked-out) comment switched off.
+func c07CommentDecisionFirst(c *Ctx) {
+	p := c.P
+	pie := c.MustFunc("C07-R6", "internal/config.parsedRule.isEnabled")
+	if pie == nil {
+		return
+	}
+	info := pie.Pkg.TypesInfo
+	fl := p.NewFlow(pie)
+	isCommentCall := func(n ast.Node) bool {
+		found := false
+		inspectNoLit(n, func(m ast.Node) bool {
+			call, ok := m.(*ast.CallExpr)
+			if !ok || !isCallTo(info, call, "internal/config.isEnabled") {
+				return true
+			}
+			for _, a := range call.Args {
+				if fieldSel(info, a, "internal/discovery.Entry", "DisabledChecks") {
+					// go/cfg does not split && / ||: a call that is only evaluated
+					// when an earlier operand allows it does not count
+					if len(WithinExprAtoms(n, call)) == 0 {
+						found = true
+					}
+				}
+			}
+			return true
+		})
+		return found
+	}
+	rets := fl.Find(func(n ast.Node) bool {
+		r, ok := n.(*ast.ReturnStmt)
+		return ok && len(r.Results) == 1 && exprStr(r.Results[0]) == "true"
+	})
+	bad := ""
+	for _, r := range rets {
+		target := r.Site
+		if ok, _ := fl.MustPass(fl.Entry(), func(s Site) bool { return s == target }, false, isCommentCall); !ok {
+			bad = p.Pos(r.Inner.Pos())
+		}
+	}
+	c.Check(len(rets) >= 1 && bad == "", "C07-R6", "parsedRule.isEnabled:comment decision precedes every `return true`", pie.Decl.Pos(), itoa(len(rets))+" positive exits, all after the comment test",
+		"the check can be declared enabled at "+bad+" without having consulted the rule's and the file's disable/snooze comments: a matching rule{enable=[…]} block then overrides `# pint disable`, a future snooze and file/disable for that check")
+}
+
+// c07NodeComments: the comments yaml.v3 attaches to the rule's mapping node
+// itself (head, line, foot) are handed to the rule's first/last part
+// independently of each other; arms of one switch or an else-chain would carry
+// over only one of them, and a control comment after a flow-style rule is lost
+// whenever there is also a comment above it.
+func c07NodeComments(c *Ctx) {
+	fi := c.MustFunc("C07-R2", "internal/parser.parseRule")
+	if fi == nil {
+		return
+	}
+	info := fi.Pkg.TypesInfo
+	nodeP := paramObj(fi, 0)
+	pm := parentMap(fi.Decl.Body)
+	type site struct {
+		as    *ast.AssignStmt
+		field string
+	}
+	var sites []site
+	ast.Inspect(fi.Decl.Body, func(n ast.Node) bool {
+		as, ok := n.(*ast.AssignStmt)
+		if !ok || len(as.Lhs) != 1 || len(as.Rhs) != 1 {
+			return true
+		}
+		sel, ok := ast.Unparen(as.Rhs[0]).(*ast.SelectorExpr)
+		if !ok || !strings.HasSuffix(sel.Sel.Name, "Comment") || !isObj(info, sel.X, nodeP) {
+			return true
+		}
+		sites = append(sites, site{as, sel.Sel.Name})
+		return true
+	})
+	c.Check(len(sites) == 3, "C07-R2", "parseRule:head, line and foot comment of the rule node are carried over", fi.Decl.Pos(), itoa(len(sites))+" transfers", "expected three transfers of node.{Head,Line,Foot}Comment, found "+itoa(len(sites)))
+	// mutual exclusion: different clauses of one switch, or body/else of one if
+	arm := func(n ast.Node) map[ast.Node]ast.Node {
+		out := map[ast.Node]ast.Node{}
+		child := n
+		for cur := pm[n]; cur != nil; child, cur = cur, pm[cur] {
+			switch x := cur.(type) {
+			case *ast.CaseClause:
+				if blk, ok := pm[x].(*ast.BlockStmt); ok {
+					if sw, ok := pm[blk].(*ast.SwitchStmt); ok {
+						out[sw] = x
+					}
+				}
+			case *ast.IfStmt:
+				if child == ast.Node(x.Body) || child == x.Else {
+					out[x] = child
+				}
+			}
+		}
+		return out
+	}
+	for i := 0; i < len(sites); i++ {
+		for j := i + 1; j < len(sites); j++ {
+			ai, aj := arm(sites[i].as), arm(sites[j].as)
+			excl := false
+			for k, vi := range ai {
+				if vj, ok := aj[k]; ok && vi != vj {
+					excl = true
+				}
+			}
+			c.Check(!excl, "C07-R2", "parseRule:"+sites[i].field+" and "+sites[j].field+" are carried over independently", sites[j].as.Pos(), "not arms of one switch / else chain",
+				"node."+sites[i].field+" and node."+sites[j].field+" are carried over in mutually exclusive arms: when the rule node has both, only one survives — `- {alert: a, expr: e} # pint disable X` loses its control comment as soon as any comment stands on the line above")
+		}
 	}
 }
